@@ -1,10 +1,12 @@
 #!/bin/sh
-# usage: tools/mutant.sh <patch> <Cxx> [tier]   -- apply patch to /repo, run the check, always revert
+# usage: tools/mutant.sh <patch> <Cxx> [tier]   -- run a check against a scratch copy of /repo's working tree with the
+# patch applied (VERIF_REPO); /repo itself is not touched, so several of these can run side by side
 P=$(realpath "$1"); ID=$2; TIER=${3:-quick}
-git -C /repo diff --quiet || { echo "/repo dirty"; exit 2; }
-git -C /repo apply "$P" || { echo "patch does not apply"; exit 2; }
-cd /verif && ./check "$ID" --tier "$TIER" > /tmp/mut_$$.log 2>&1; RC=$?
-git -C /repo checkout -- .
-echo "mutant $(basename $P) on $ID: rc=$RC $(grep -c '^VIOLATION' /tmp/mut_$$.log) violation lines; $(grep -c '^KNOWN' /tmp/mut_$$.log) known"
-tail -2 /tmp/mut_$$.log | cut -c1-300
-rm -f /tmp/mut_$$.log
+W=$(mktemp -d /tmp/mut_XXXXXX)
+rsync -a --exclude .git --exclude docs --exclude tests /repo/ $W/repo/
+( cd $W/repo && patch -p1 -s < "$P" ) || { echo "patch does not apply"; rm -rf $W; exit 2; }
+cd /verif && VERIF_REPO=$W/repo ./check "$ID" --tier "$TIER" > $W/log 2>&1; RC=$?
+echo "mutant $(basename $(dirname $P))/$(basename $P) on $ID: rc=$RC $(grep -c '^VIOLATION' $W/log) violation lines; $(grep -c '^KNOWN' $W/log) known"
+grep -A3 'violating cases by feature' $W/log | cut -c1-260
+tail -2 $W/log | cut -c1-300
+rm -rf $W
